@@ -1,3 +1,4 @@
+import Agd.Tie.TrC15
 import Agd.Lemmas.Record
 import Agd.Tie.C15
 /-!
@@ -373,3 +374,25 @@ end Agd.Record
 #print axioms Agd.Record.log_iff
 #print axioms Agd.Record.unidentified_never_logged
 #print axioms Agd.Record.file_lines_all_read
+#print axioms Agd.Tie.TrC15.translation_complete
+#print axioms Agd.Tie.TrC15.convertElapsed_tr
+#print axioms Agd.Tie.TrC15.toResultCode_tr
+#print axioms Agd.Tie.TrC15.toResultCode_total_iff
+#print axioms Agd.Tie.TrC15.resultData_tr
+#print axioms Agd.Tie.TrC15.mw_resultData_tr
+#print axioms Agd.Tie.TrC15.mw_resultData_total_iff
+#print axioms Agd.Tie.TrC15.filteringData_picks
+#print axioms Agd.Tie.TrC15.filteringData_blocked_tr
+#print axioms Agd.Tie.TrC15.responseData_nil
+#print axioms Agd.Tie.TrC15.responseData_some
+#print axioms Agd.Tie.TrC15.responseCountry_na
+#print axioms Agd.Tie.TrC15.responseCountry_geo
+#print axioms Agd.Tie.TrC15.anonymous_only_rulestat
+#print axioms Agd.Tie.TrC15.attributed_spec
+#print axioms Agd.Tie.TrC15.never_panics_iff
+#print axioms Agd.Tie.TrC15.anonymous_never_billed_or_logged
+#print axioms Agd.Tie.TrC15.billed_once_before_log
+#print axioms Agd.Tie.TrC15.logged_iff_qlog
+#print axioms Agd.Tie.TrC15.entry_ip_only_if_iplog
+#print axioms Agd.Tie.TrC15.entry_describes_request
+#print axioms Agd.Tie.TrC15.record_tr
